@@ -467,6 +467,14 @@ def run(ctx):
         ctx.guarded("C01.f", rule_f, R, types)
     ctx.guarded("C01.a", body)
     ctx.guarded("C01.g", rule_g)
+
+    def rule_i(c):
+        from .C13 import rule_d as fd_owner
+        from .C18 import _Alias
+        c.rule("C01.i", "nothing an action uses is released while the action is still registered: the self-pipe descriptor an action writes to is "
+                        "obtained from an owner the action itself keeps alive (shared with C13.d)", floor=2)
+        fd_owner(_Alias(c, "C01.i"))
+    ctx.guarded("C01.i", rule_i)
     ctx.note("not decided: that the protocol as a whole is a correct grace period under all interleavings (RCU proof); the value-level "
              "logic of the barrier (exit condition 'all slots seen zero', sticky seen_zero) — computed through iterator combinators whose "
              "meaning is not visible in the CFG shape")
